@@ -1180,6 +1180,17 @@ class ExcAnalysis:
         if isinstance(n.value, ast.Name) and (n.value.id in ("list", "dict", "tuple", "set", "type", "Callable", "Sequence", "Mapping", "Final", "Generic", "Optional") or self.M.cls(n.value.id, required=False) is not None):
             return []
         if isinstance(rt, str) and rt not in ("str", "bytes", "bytearray") and self.M.cls(rt, required=False) is not None:
+            k = self.M.cls(rt, required=False)
+            if k is not None and self.M.find_method(k, "__getitem__") is not None and self.M.find_method(k, "length") is not None:
+                # a text buffer of the compatibility layer (StringBuilder): indexing is list indexing; `buf[buf.length - 1]` needs a
+                # non-empty buffer (index -1 on an empty one raises IndexError)
+                base, idx = unparse(n.value), unparse(n.slice)
+                facts = self.facts(n, fn)
+                if idx.replace(" ", "") == f"{base}.length-1" and any(l == f"{base}.length" and ((op == ">" and r == "0") or (op == ">=" and r == "1") or (op == "!=" and r == "0")) for (l, op, r) in facts):
+                    self.ops_seen += 1
+                    self.discharged[("IndexError", fn.qual, unparse(n)[:100])] = f"dominated by {base}.length > 0"
+                    return []
+                return self._op("IndexError", n, fn)
             return []  # repo __getitem__: handled as implicit call
         kind = "KeyError" if isinstance(rt, tuple) and rt[0] == "dict" else "IndexError" if (isinstance(rt, tuple) and rt[0] in ("list", "tuple")) or rt in ("str", "bytes", "bytearray") else "LookupError"
         why = self._subscript_safe(n, fn, rt)
